@@ -365,6 +365,10 @@ def _vocab(p):
 def _terms_included(want, got):
     """multiset inclusion of controlling terms; a term is 'atoms@outcome' -- equal atoms match when the outcomes are equal
     or one side has none (an outcome the analysis could not name claims nothing) or they are of different kinds"""
+    # a test repeated along a path with the same outcome (`if is_connect {..} .. if is_connect {..}`) is one fact: identical
+    # terms count once on both sides
+    want = sorted(set(want))
+    got = sorted(set(got))
     rest = list(got)
     pending = []
     # a term that names nothing but anonymous locals (`var:bool`) cannot be recognised again after any rewrite: it claims nothing
@@ -428,9 +432,11 @@ def _merge_complementary(sites):
     site that no longer depends on that test (y hoisted out of the if/else; the two exits joined by `||`): the merged
     site keeps every other term of both"""
     sites = [sorted(x) for x in sites]
+    stages = []
     changed = True
     while changed:
         changed = False
+        stages.append([list(x) for x in sites])
         for i in range(len(sites)):
             for j in range(i + 1, len(sites)):
                 a, b = collections.Counter(sites[i]), collections.Counter(sites[j])
@@ -465,7 +471,8 @@ def _merge_complementary(sites):
                 break
             if changed:
                 break
-    return sites
+    stages.append([list(x) for x in sites])
+    return stages
 
 
 def error_kind_sites(F, f):
@@ -538,7 +545,7 @@ def check_guards(ctx, rid, prop):
         # every reviewed site (as its multiset of controlling terms) must still exist; additional sites are new behaviour, not a violation
         # (a site may acquire further controlling tests — e.g. a new early error exit above it — without violating anything:
         #  the reviewed terms must be included in the site's terms)
-        ok = _sites_included(want, got) or _sites_included(_merge_complementary(want), got)
+        ok = _sites_included(want, got) or any(_sites_included(stage, got) for stage in _merge_complementary(want))
         if not ok and e['action'] == 'err':
             # `match o { Some(v) => Ok(v), None => Err(E) }` rewritten as `o.ok_or(E)`: the test moved into the combinator,
             # which is called under the remaining (outer) tests of the reviewed site
